@@ -30,6 +30,7 @@ SDL = {
           arg(x: Int!, y: [Int] = [1], inp: Inp): Int
           argn(x: Int!): Int!
           echo(f: Float): Float
+          sum(xs: [Float!], inp: Inp): Float
         }
         type Obj { a: Int, s: String!, f: Float, o: Obj, on: Obj!, ln: [Int!], id: ID!, lo: [Obj] }
         enum Color { RED GREEN }
@@ -51,7 +52,7 @@ TYPES = {
     "A": {
         "Query": {"a": "Int", "s": "String!", "f": "Float", "fn": "Float!", "b": "Boolean", "o": "Obj",
                   "on": "Obj!", "l": "[Int]", "ln": "[Int!]!", "lf": "[Float]", "lo": "[Obj!]",
-                  "lol": "[[Obj]]", "e": "Color", "arg": "Int", "argn": "Int!", "echo": "Float"},
+                  "lol": "[[Obj]]", "e": "Color", "arg": "Int", "argn": "Int!", "echo": "Float", "sum": "Float"},
         "Obj": {"a": "Int", "s": "String!", "f": "Float", "o": "Obj", "on": "Obj!", "ln": "[Int!]",
                 "id": "ID!", "lo": "[Obj]"},
         "Mutation": {"set": "Int", "fail": "Int!", "mo": "Obj"},
@@ -153,6 +154,12 @@ def _fits(value, gql_type):
     if isinstance(t, ListType):
         return isinstance(value, list) and all(_fits(v, t.type) for v in value)
     if isinstance(t, ScalarType):
+        if t.name == "Float" and isinstance(value, str):
+            try:
+                float(value)        # numeric text (incl. "inf", "nan", "1e999") is something float() takes
+                return True
+            except ValueError:
+                return False
         if t.name in ("Int", "Float"):
             return isinstance(value, (int, float)) and not isinstance(value, bool)
         return not isinstance(value, (list, dict))
@@ -250,9 +257,22 @@ def _log_raise(ctx, info, err):
     ctx.setdefault("raised_ext", []).append([list(info.path), dict(ext) if ext else None, type(err).__name__])
 
 
+def _non_finite_in(v, out, where):
+    if isinstance(v, float) and not math.isfinite(v):
+        out.append([where, repr(v)])
+    elif isinstance(v, (list, tuple)):
+        for i, x in enumerate(v):
+            _non_finite_in(x, out, "%s[%d]" % (where, i))
+    elif isinstance(v, dict):
+        for k, x in v.items():
+            _non_finite_in(x, out, "%s.%s" % (where, k))
+
+
 def _resolve(sname, ctx, info, args):
     from py_gql.schema import unwrap_type
     key = path_key(info.path)
+    # Float input coercion must never hand a non-finite number to a resolver
+    _non_finite_in(args, ctx.setdefault("nonfinite_args", []), path_key(info.path))
     act = ctx["world"].get(key)
     if act is not None and act[0] == "raise_cls":
         err = make_error(act)
@@ -572,7 +592,45 @@ OPNAME_CASES = [
     ("mutation M { set(x: 1) } query Q { a }", ["M", "Q", None, "m"]),
 ]
 
+BIG_INT = "9" * 400
+
+# non-finite numbers spelled as text.  (text, variables, stages at which the request must be contained)
+NONFINITE_LITERAL_CASES = [
+    ("{ echo(f: 1e999) }", {}, ["validation"]),
+    ("{ echo(f: -1.5E+4000) }", {}, ["validation"]),
+    ("{ echo(f: %s) }" % BIG_INT, {}, ["validation"]),
+    ("{ arg(x: 1, inp: {a: 1, f: 1e999}) }", {}, ["validation"]),
+    ("{ sum(xs: [1.0, -1e999, 2]) }", {}, ["validation"]),
+    ("{ sum(inp: {a: 1, b: [], f: %s.5}) }" % BIG_INT, {}, ["validation"]),
+    ("{ o { a } x: echo(f: 1E+999) }", {}, ["validation"]),
+    ("query Q($f: Float = 1e999) { echo(f: $f) }", {}, ["validation", "variable-coercion"]),
+    ("query Q($i: Inp = {a: 1, f: -1e999}) { arg(x: 1, inp: $i) }", {}, ["validation", "variable-coercion"]),
+]
+NONFINITE_VARIABLE_CASES = [
+    ("query Q($f: Float) { echo(f: $f) }", [{"f": s} for s in
+                                            ["Infinity", "-inf", "nan", "1e999", "+inf", " inf ", "-1E+4000", "NaN", "infinity"]]),
+    ("query Q($f: Float!) { echo(f: $f) }", [{"f": "inf"}, {"f": {"$float": "inf"}}, {"f": 10 ** 400}]),
+    ("query Q($i: Inp) { arg(x: 1, inp: $i) }", [{"i": {"a": 1, "f": "inf"}}, {"i": {"a": 1, "f": "1e999"}},
+                                                {"i": {"a": 1, "f": {"$float": "nan"}}}]),
+    ("query Q($xs: [Float!]) { sum(xs: $xs) }", [{"xs": [1.0, "nan"]}, {"xs": ["1e999"]}, {"xs": "-Infinity"},
+                                                {"xs": [{"$float": "-inf"}, 2.0]}]),
+    ("query Q($i: Inp!) { sum(inp: $i) }", [{"i": {"a": 1, "b": [], "f": "Infinity"}}]),
+]
+# valid neighbours: numeric text / big-but-finite values must keep working
+FINITE_TEXT_CASES = [
+    ("query Q($f: Float) { echo(f: $f) }", [{"f": "1.5"}, {"f": "1e308"}, {"f": "-0.0"}, {"f": 7}]),
+    ("query Q($xs: [Float!]) { sum(xs: $xs) }", [{"xs": ["2.5", 1]}, {"xs": 3}]),
+    ("{ echo(f: 1e308) x: echo(f: 12345678901234567890) sum(xs: [1, 2.5e-300]) }", [{}]),
+]
+
 FLOAT_RETURN_CASES = [
+    # a resolver returning a non-finite number as text
+    ("A", "{ f }", {"f": ["value", "inf"]}),
+    ("A", "{ fn }", {"fn": ["value", "nan"]}),
+    ("A", "{ f }", {"f": ["value", "1e999"]}),
+    ("A", "{ o { f } }", {"o/f": ["value", "-Infinity"]}),
+    ("A", "{ lf }", {"lf": ["value", [1.5, "NaN", 2]]}),
+    ("A", "{ f x: fn }", {"f": ["value", "2.5"], "x": ["value", "1e308"]}),
     # (schema, text, world)
     ("A", "{ f }", {"f": ["value", {"$float": "inf"}]}),
     ("A", "{ f }", {"f": ["value", {"$float": "nan"}]}),
